@@ -859,6 +859,16 @@ class Executor:
             return Builtin('set.' + name, _set_method(o, name))
         if isinstance(o, tuple):
             return Builtin('tuple.' + name, _list_method(list(o), name))
+        if isinstance(o, Builtin) and o.name == 'dict' and name == 'fromkeys':
+            # every key gets the SAME value object (as in CPython): aliasing of a mutable default is modelled, not hidden
+            def fromkeys(ex, keys, value=None):
+                d = {}
+                for k_ in ex.iterate(keys):
+                    if isinstance(k_, (Sym, SStr)):
+                        raise Unsupported('dict.fromkeys with symbolic keys')
+                    d[k_] = value
+                return d
+            return Builtin('dict.fromkeys', fromkeys)
         raise Unsupported('attribute %s of %r' % (name, type(o).__name__))
 
     def class_attr_value(self, cinfo, name, expr):
